@@ -273,10 +273,18 @@ def run_raw_batch(ctx, n, tag):
         elif x < 0.8:
             lines.append("%s%d\tsharedfmla\tcn2n\t%d" % (tag, k, rng.choice([0, 25, 26, 701, 702, 16383, 16384, rng.randrange(2 ** 32)])))
         elif x < 0.9:
-            s = "".join(rng.choice("ABZXFDaz0159$:") for _ in range(rng.randrange(0, 12)))
+            if rng.random() < 0.5:
+                s = "".join(rng.choice("ABZXFDaz0159$:") for _ in range(rng.randrange(0, 12)))
+            else:
+                # long letter / digit runs: the u64 accumulators saturate, u32::try_from decides
+                s = "".join(rng.choice("AZFXaz") for _ in range(rng.choice([0, 1, 3, 6, 7, 8, 13, 14, 15, 20]))) + \
+                    rng.choice(["", "7", "1"]) + rng.choice(["", "0", "0" * 23, "0" * 64, "0" * 70]) + \
+                    "".join(rng.choice("0123456789") for _ in range(rng.choice([0, 1, 7, 9, 10, 11, 19, 20, 21, 30])))
+                s = rng.choice([s, s, "A4294967296", "A4294967297", "A18446744073709551616", "MWLQKWU1", "MWLQKWV1", s + "1"])
             lines.append("%s%d\tsharedfmla\tgrc\t%s" % (tag, k, G.hx(s)))
         else:
             s = rng.choice(["A1:B2", "B2:A1", "A1", "A1:B2:C3", "", ":", "A1:", "XFD1048576:XFD1048576", "C3:C9", "C3:K3",
+                            "B3:B2", "C2:B2", "A4294967296:A1", "A1:A4294967297", "a1:b2", "A1:XFD1048576", "A:B", "1:2",
                             "".join(rng.choice("ABC123:") for _ in range(rng.randrange(0, 9)))])
             lines.append("%s%d\tsharedfmla\tgdim\t%s" % (tag, k, G.hx(s)))
     impl, model = ctx.run_both(lines)
@@ -545,6 +553,45 @@ def run_sheet_batch(ctx, n, tag, kinds=("normal", "normal", "normal", "block", "
             ctx.count("known-sheet:" + c)
     shutil.rmtree(d, ignore_errors=True)
 
+BAD_REFS = ["B3:B2", "D2:B2", "D4:B2", "A4294967296:B2", "B2:A4294967297", "A99999999999999999999:B2", "B2:C3:D4", "", ":",
+            "B2:", "A:B", "2:3", "b2:d4", "ZZZZZZZZZZZZZZZ1:B2", "B0:B2", "$B$2:$D$4", "B2 :D4", "A1:XFD1048576"]
+def run_badref_sheets(ctx, n, tag):
+    """robustness of the ref attribute (C06 hardening): a master whose ref is inverted, huge,
+    truncated or garbage.  Outside the property's domain: implementation vs model only."""
+    rng = ctx.rng
+    d = tmpdir(ctx)
+    lines, meta = [], []
+    for k in range(n):
+        cells, groups = gen_sheet(rng, rng.choice(["normal", "block", "si"]))
+        idx = [i for i, c in enumerate(cells) if c[2][0] == "master"]
+        if not idx:
+            continue
+        i = rng.choice(idx)
+        r, c, kind = cells[i]
+        bad = rng.choice(BAD_REFS)
+        cells[i] = (r, c, ("master", kind[1], bad, kind[3]))
+        path = os.path.join(d, "%s%d.xlsx" % (tag, k))
+        G.write_xlsx(path, "Sheet1", cells, rng)
+        lid = "%s%d" % (tag, k)
+        lines.append("%s\tsharedfmla\tsheet\t%s\t%s\t%s\t%s" % (lid, G.wire_cells(cells), path, G.hx("Sheet1"), ORACLE["arg"]))
+        meta.append((lid, bad, path))
+    impl, model = ctx.run_both(lines)
+    for (lid, bad, path), line in zip(meta, lines):
+        ctx.traces += 1
+        a, m = impl.get(lid), model.get(lid)
+        ctx.count("badref:%s" % ("range" if (a or "").startswith("R[") else a))
+        if a != m:
+            keep = os.path.join(vlib.ROOT, "replays", "C15-%s.xlsx" % lid)
+            os.makedirs(os.path.dirname(keep), exist_ok=True)
+            if len(ctx.disagreements) < 5:
+                shutil.copy(path, keep)
+            ctx.disagreements.append({"function": "next_formula (malformed ref %r)" % bad, "case": line.replace(path, keep),
+                                      "impl": a, "model": m})
+        if a in ("panic", "abort", "timeout"):
+            ctx.violations.append({"case": line, "expected": "a range or an error", "actual": a, "model": m,
+                                   "what": "worksheet_formula must not panic on a shared-formula master with ref=%r" % bad})
+    shutil.rmtree(d, ignore_errors=True)
+
 def run_fixed_sheets(ctx):
     """hand-made sheets: column, row and block groups, shared indices in every order, a gap, a
     repeated index, a master in the middle of its block, plain cells and strays"""
@@ -608,6 +655,7 @@ def run(ctx):
     run_tok_batch(ctx, ctx.scale(30000, 250000), "t")
     run_raw_batch(ctx, ctx.scale(10000, 100000), "r")
     run_sheet_batch(ctx, ctx.scale(1500, 12000), "s")
+    run_badref_sheets(ctx, ctx.scale(300, 3000), "b")
     if ctx.tier == "thorough":
         sweep_columns(ctx)
 
